@@ -368,3 +368,35 @@ func Verif_C12_rules_replaced_during_evaluation() {
 	verifapi.Assert("packet-accepted-by-either-list-is-delivered", len(*sk.got) == 1)
 	verifapi.Assert("no-lock-left-held", verifapi.HeldLocks() == 0)
 }
+
+// Verif_C12_rules_judge_every_packet_whatever_its_budget: a packet for another node that arrives with
+// ANY hop budget (0 included) is judged by the rules first: a drop rule keeps it silent (no forwarding,
+// no notice of any kind), a reject rule answers "blocked by firewall" and nothing else.
+func Verif_C12_rules_judge_every_packet_whatever_its_budget() {
+	n := verifNetceptor("A")
+	s := n.s
+	cb := n.verifConn("B", 1)
+	cc := n.verifConn("C", 1)
+	s.routingTable["B"] = "B"
+	s.routingTable["C"] = "C"
+	action := []string{"drop", "reject"}[verifapi.Choose(2)]
+	rules, err := ParseFirewallRules([]FirewallRuleData{{"action": action, "fromnode": "B"}})
+	verifapi.Assert("rules-parse", err == nil)
+	verifapi.Assert("rules-installed", s.AddFirewallRules(rules, true) == nil)
+	h := verifapi.Byte()
+	_ = s.handleMessageData(&MessageData{FromNode: "B", ToNode: "C", FromService: "x", ToService: "svc", HopsToLive: h, Data: []byte{1}})
+	verifapi.Quiesce()
+	toB, toC := verifTake(cb), verifTake(cc)
+	verifapi.Cover("judged")
+	verifapi.Assert("filtered-packet-not-forwarded", len(toC) == 0)
+	if action == "drop" {
+		verifapi.Assert("dropped-packet-produces-no-notice-at-all", len(toB) == 0)
+	} else {
+		verifapi.Assert("rejected-packet-answered-once", len(toB) == 1)
+		if len(toB) == 1 {
+			md, derr := s.translateDataToMessage(toB[0])
+			um := &UnreachableMessage{}
+			verifapi.Assert("answer-is-a-firewall-notice", verifapi.All(derr == nil, md.ToService == "unreach", verifapi.FromJSON(md.Data, um), um.Problem == ProblemRejected))
+		}
+	}
+}
